@@ -329,12 +329,23 @@ def precomputed(kind, X):
 
 
 def materialise(spec):
+    """Build the estimator and the data.  With a `first` data set (refit stream) the argument objects are resolved
+    ONCE (for the first data set) and a first fit is run before the data of the case proper are returned:
+    mode 'refit' fits the SAME estimator twice, mode 'shared' fits a first estimator built from the SAME argument
+    objects (groups list, kernel_params dict, feature_mask array, GEMINI instance ...)."""
     name, ds = spec["est"], spec["data"]
-    X, Xt, Xs = make_data(ds)
-    d = ds["d"]
+    first = spec.get("first")
+    d = (first or ds)["d"]
     kw = {k: resolve(v, d) for k, v in spec["params"].items()}
-    est = impl.ALL_ESTIMATORS[name](**kw)
+    cls = impl.ALL_ESTIMATORS[name]
+    est = cls(**kw)
     ak = affinity_kind(est)
+    if first is not None:
+        XA = make_data(first)[0]
+        e0 = est if spec.get("mode", "refit") == "refit" else cls(**kw)
+        with quiet():
+            e0.fit(XA.tolist() if first.get("as_list") else XA, precomputed(ak, XA))
+    X, Xt, Xs = make_data(ds)
     y, yt, ys = precomputed(ak, X), precomputed(ak, Xt), precomputed(ak, Xs)
     return est, X, y, (Xt, yt), (Xs, ys)
 
@@ -405,6 +416,7 @@ def run_spec(spec):
     signal.alarm(TIMEOUT)
     try:
         name = spec["est"]
+        stage = "first-fit" if spec.get("first") else "construct"
         est, X, y, (Xt, yt), (Xs, ys) = materialise(spec)
         as_list = spec["data"].get("as_list")
         Xin, Xtin, Xsin = [(a.tolist() if as_list else a) for a in (X, Xt, Xs)]
@@ -667,6 +679,9 @@ def minimise(spec, checks, budget=40):
         t2 = make_spec(trial["est"], {k2: v for k2, v in trial["params"].items()}, data=trial["data"])
         if t2 is None or t2["data"]["n"] < min_rows(t2["est"], t2["params"]):
             continue
+        for extra in ("first", "mode"):
+            if extra in spec:
+                t2[extra] = spec[extra]
         budget -= 1
         r = run_spec(t2)
         if r["rejected"]:
@@ -684,6 +699,8 @@ def failure_key(spec, check):
     for kind, k in items:
         v = spec["params"][k] if kind == "p" else spec["data"][k]
         parts.append(f"{k}={tok_str(v)}")
+    if spec.get("first"):
+        parts.append(("refit" if spec.get("mode", "refit") == "refit" else "shared-arguments") + f"-after-d={spec['first']['d']}")
     return f"{spec['est']}:{','.join(sorted(parts)) or 'base'}:{check}"
 
 
@@ -840,6 +857,52 @@ def specs_grid(chk, notes, sample=None):
     return out
 
 
+def specs_refit(chk, reps, notes):
+    """fit, then fit again: the SAME object on a second data set with another n and (where the configuration allows) another d,
+    also a smaller one; and two estimators built from the SAME mutable argument objects.  The coherence checks run after the
+    second fit.  A valid configuration stays valid whatever was fitted before."""
+    out = []
+    pick = {"groups": [None, {"groups": "partial"}, {"groups": "empty"}],
+            "kernel": ["precomputed", {"callable": "kernel"}, "rbf"], "metric": ["precomputed", {"callable": "metric"}, "cityblock"],
+            "base_kernel": [{"callable": "kernel"}, "rbf"],
+            "gemini": ["mmd_ovo", "wasserstein_ova", "kl_ovo", {"gem": "MMDGEMINI", "kernel": "precomputed"},
+                       {"gem": "WassersteinGEMINI", "metric": "precomputed"}, {"gem": "TVGEMINI", "ovo": True}],
+            "n_clusters": [2], "max_clusters": [2, 5], "max_leaves": [3], "dynamic": [True]}
+    for name in impl.ALL_ESTIMATORS:
+        ps = ctor_params(name)
+        n0 = base_n(name, base_params(name))
+        variants = [{}]
+        for pname in ps:
+            if pname in pick:
+                variants += [{pname: v} for v in pick[pname]]
+            elif pname in ("feature_mask", "kernel_params", "metric_params", "base_kernel_params"):
+                variants += param_options(name, pname, n0, 3, notes)
+        for ov in variants:
+            for mode in ("refit", "shared"):
+                for r in range(reps):
+                    rng = chk.rng("refit", name, json.dumps(ov, sort_keys=True, default=str), mode, r)
+                    ov2 = dict(ov)
+                    if "solver" in ps:
+                        ov2["solver"] = SOLVERS[int(rng.integers(0, 2))]
+                    fixed_d = ov.get("feature_mask") is not None and "feature_mask" in ov
+                    dA, dB = [(3, 2), (3, 3), (2, 3), (3, 1), (4, 2)][int(rng.integers(0, 5))]
+                    if ov.get("groups") == {"groups": "partial"}:
+                        dA, dB = [(3, 2), (4, 2), (2, 3), (4, 3)][int(rng.integers(0, 4))]     # [[1, 0]] is valid for every d >= 2
+                    if fixed_d:
+                        dB = dA
+                    nB = [n0 + 3, max(2, n0 - 3), n0][int(rng.integers(0, 3))]
+                    A = make_spec(name, ov2, data={"n": n0, "d": dA, "seed": int(rng.integers(0, 1000)), "as_list": bool(rng.random() < 0.2)})
+                    B = make_spec(name, ov2, data={"n": nB, "d": dB, "seed": int(rng.integers(0, 1000)), "as_list": bool(rng.random() < 0.2)})
+                    if A is None or B is None:
+                        continue
+                    if fixed_d:
+                        B["data"]["d"] = A["data"]["d"]
+                    B["first"], B["mode"] = A["data"], mode
+                    B["focus"] = f"{mode}:" + (",".join(f"{k}={tok_str(v)}" for k, v in ov.items()) or "base")
+                    out.append(B)
+    return out
+
+
 def specs_precondition(chk):
     """data violating a metric's own documented precondition: a failure inside scikit-learn's metric is out of scope (documented)"""
     out = []
@@ -949,7 +1012,10 @@ def evaluate(chk, st, spec, res, stream):
         chk.dist["solver:" + str(spec["params"].get("solver", "-"))] += 1
         chk.dist["batch:" + ("None" if spec["params"].get("batch_size") is None else "int")] += 1
         chk.dist["n==K" if spec["data"]["n"] == clusters_of(name, spec["params"]) else "n>K"] += 1
-        chk.count((name, json.dumps(spec["params"], sort_keys=True, default=str), json.dumps(spec["data"], sort_keys=True)))
+        if spec.get("first"):
+            chk.dist["refit:" + spec.get("mode", "refit") + (":smaller-d" if spec["data"]["d"] < spec["first"]["d"] else ":larger-d" if spec["data"]["d"] > spec["first"]["d"] else ":same-d")] += 1
+        chk.count((name, json.dumps(spec["params"], sort_keys=True, default=str), json.dumps(spec["data"], sort_keys=True),
+                   json.dumps(spec.get("first"), sort_keys=True), spec.get("mode")))
     else:
         chk.count(None)
     if spec.get("focus", "").startswith(("gemini=", "kernel=", "metric=", "groups=")):
@@ -1027,6 +1093,7 @@ def main():
                 ("pairs", specs_pairs(chk, (300 if quick else 4000) * widen, notes)),
                 ("precondition", specs_precondition(chk)),
                 ("rejection", specs_rejection(chk)),
+                ("refit", specs_refit(chk, (1 if quick else 4) * widen, notes)),
                 ("grid", specs_grid(chk, notes, sample=(400 * widen if quick else None)))]
         chk.run_stream("softmax", stream_softmax, 300 if quick else 5000)
     sizes = {}
@@ -1075,7 +1142,8 @@ def main():
     chk.finish(rule="configurations: for each of the 18 estimators every option value of every constructor argument read from _parameter_constraints "
                     "(GEMINI names and instances, kernels, metrics, precomputed with a matrix, callables, solvers, booleans, None) and boundary/interior numeric values, one factor at a time "
                     "with solver / batch size (1..n+1, None) / n (n==n_clusters..12) / d (1..3) / duplicated rows / list input rotated per case; dataset shapes x K in 1..3; random full combinations; "
-                    "objective x solver x batch x dataset grid (sampled in the quick tier, complete in the thorough tier). Each case: validate, fit, predict_proba/predict/score on training and new data, fit_predict of a clone; "
+                    "objective x solver x batch x dataset grid (sampled in the quick tier, complete in the thorough tier); refit stream: the same object fitted a second time on data with another n and another "
+                    "(also smaller) d, and two estimators built from the same mutable argument objects (groups list, kernel_params dict, feature mask, GEMINI instance), checks after the second fit. Each case: validate, fit, predict_proba/predict/score on training and new data, fit_predict of a clone; "
                     "L3 = statement of C04 on the fitted object, L2 = extracted model (labels_of, forward pass from the fitted parameters, GEMINI score, n_iter, optimiser) against it. "
                     "non-trivial = accepted configuration whose fit and all observations completed; distinct = distinct (estimator, parameters, data) triple",
                extra=extra)
